@@ -27,29 +27,19 @@
 
 static int f_alloc, f_bytes, f_hdr, f_safe, f_work;
 
-/* ---------- identity table: header pointer -> hex id ---------- */
-#define MAXH 4096
-static struct { LHAFileHeader *p; char *id; } ht[MAXH]; static int nht;
-static char *hexid(LHAFileHeader *h)
+/* ---------- identity of a header: hex of path + filename (all headers passed here are live) ---------- */
+static char idbuf[8][2100]; static int idrot;
+static const char *idof(LHAFileHeader *h)
 {
+	char *s = idbuf[idrot++ % 8], *q = s;
 	size_t lp = h->path ? strlen(h->path) : 0, lf = h->filename ? strlen(h->filename) : 0;
-	char *s = malloc(2 * (lp + lf) + 2), *q = s;
-	for (size_t i = 0; i < lp; i++) q += sprintf(q, "%02x", (unsigned char) h->path[i]);
-	for (size_t i = 0; i < lf; i++) q += sprintf(q, "%02x", (unsigned char) h->filename[i]);
+	for (size_t i = 0; i < lp && q - s < 2000; i++) q += sprintf(q, "%02x", (unsigned char) h->path[i]);
+	for (size_t i = 0; i < lf && q - s < 2000; i++) q += sprintf(q, "%02x", (unsigned char) h->filename[i]);
 	if (q == s) *q++ = '-';
 	*q = 0;
 	return s;
 }
-static void remember(LHAFileHeader *h)
-{
-	for (int i = 0; i < nht; i++) if (ht[i].p == h) { free(ht[i].id); ht[i].id = hexid(h); return; }
-	if (nht < MAXH) { ht[nht].p = h; ht[nht].id = hexid(h); nht++; }
-}
-static const char *idof(LHAFileHeader *h)
-{
-	for (int i = 0; i < nht; i++) if (ht[i].p == h) return ht[i].id;
-	return "?";
-}
+static void remember(LHAFileHeader *h) { (void) h; }
 
 /* ---------- callback stream ---------- */
 static uint8_t *adata; static size_t alen, apos;
@@ -162,9 +152,7 @@ int main(int argc, char **argv)
 			if (!f) { perror(arc); return 2; }
 			free(adata); adata = malloc(1 << 26); alen = fread(adata, 1, 1 << 26, f); fclose(f); apos = 0;
 		}
-		src_calls = src_bytes = 0; src_budget = f_work ? 64 * alen + 200000 : 0;
-		for (int i = 0; i < nht; i++) free(ht[i].id);
-		nht = 0;
+		src_calls = src_bytes = 0; src_budget = 64 * alen + 200000;   /* deterministic step budget: a hang becomes a Budget event */
 		if (strcmp(xdir, "-") && chdir(xdir) != 0) { perror(xdir); return 2; }
 		verif_alloc_reset(); verif_fail_at = failk; verif_alloc_log = f_alloc;
 		LHAInputStream *st = NULL; FILE *fh = NULL; int is_popen = 0;
@@ -188,7 +176,7 @@ int main(int argc, char **argv)
 				if (h) remember(h);
 				LIB(fake = lha_reader_current_is_fake(r));
 				printf("{\"e\":\"Next\",\"id\":");
-				if (h) printf("\"%s\"", idof(h)); else printf("null");
+				printf("\"%s\"", h ? idof(h) : "");
 				printf(",\"fake\":%s", fake ? "true" : "false");
 				if (h && f_hdr) hdrinfo(h);
 				tail(r);
@@ -220,16 +208,17 @@ int main(int argc, char **argv)
 				tail(r);
 				break; }
 			case 'X': {
-				int res; char safe[64]; char *fn = NULL; struct stat sb; int existed = 0;
+				int res; char safe[64]; char *fn = NULL; struct stat sb; int existed = 0, after = 0; char *pth = NULL;
 				LhasaVerifReaderState ps;
 				lhasa_verif_reader_project(r, &ps);
 				if (f_safe) { snprintf(safe, sizeof safe, "x%u", safe_n++); fn = safe; }
 				if (ps.curr_file) {
 					char *p = fn ? strdup(fn) : lha_file_header_full_path(ps.curr_file);
-					if (p) { size_t l = strlen(p); while (l > 1 && p[l - 1] == '/') p[--l] = 0; existed = lstat(p, &sb) == 0; free(p); }
+					if (p) { size_t l = strlen(p); while (l > 1 && p[l - 1] == '/') p[--l] = 0; existed = lstat(p, &sb) == 0; pth = p; }
 				}
 				LIB(res = lha_reader_extract(r, fn, NULL, NULL));
-				printf("{\"e\":\"Extract\",\"res\":%s,\"existed\":%s", res ? "true" : "false", existed ? "true" : "false");
+				if (pth) { after = lstat(pth, &sb) == 0; free(pth); }
+				printf("{\"e\":\"Extract\",\"res\":%s,\"existed\":%s,\"after\":%s", res ? "true" : "false", existed ? "true" : "false", after ? "true" : "false");
 				tail(r);
 				break; }
 			case 'P':
